@@ -85,6 +85,11 @@ URIS = [
     "aaa://host.example.com;transport=tcp",
     "aaa://host.example.com:6666;transport=sctp;protocol=diameter",
     "aaas://h-1.example.org:1;protocol=radius",
+    # FQDNs with the digit 0 in the first label / at the very end, a short one
+    "aaa://hss0",
+    "aaa://node10.example.com",
+    "aaa://host.example.com:3870",
+    "aaa://ab",
 ]
 
 ADDRS = ["10.0.0.1", "0.0.0.0", "255.255.255.255", "127.0.0.1", "::1", "::", "2001:db8::1",
